@@ -1,6 +1,6 @@
 (* C01 — programs evaluate to the result ES5 prescribes (statement-level
    control flow of the MiniJS fragment: blocks, if, while, do-while, for,
-   switch, labelled statements, break/continue/return/throw,
+   for-in (over an abstract enumeration protocol), switch, labelled statements, break/continue/return/throw,
    try/catch/finally, over an expression language with assignment, ++,
    && || ?:, host calls).
    OttoSem = exec_o (cmpl_evaluate_statement.go: completions as result
@@ -15,10 +15,11 @@ Import ListNotations.
    evaluator (which may throw), truthiness and entry poll *)
 Theorem C01_control_flow_refines_generic :
   forall (st val expr : Type) (eval : st -> expr -> st * (val + val)) (truthy : val -> bool)
-         (poll : st -> st * option val) (recatch : val -> val) (veq : val -> val -> bool) (fuel : nat) (s : stmt expr) (s0 : st),
+         (poll : st -> st * option val) (recatch : val -> val) (veq : val -> val -> bool)
+         (enum : st -> expr -> st * (list (list val) + val)) (live : st -> val -> bool) (bind : st -> expr -> val -> st * option val) (fuel : nat) (s : stmt expr) (s0 : st),
     wf s = true ->
-    let '(s1, L1, ro) := exec_o eval truthy poll recatch veq fuel s0 [] s in
-    let '(s2, rs) := exec_s eval truthy poll recatch veq fuel s0 [] s in
+    let '(s1, L1, ro) := exec_o eval truthy poll recatch veq enum live bind fuel s0 [] s in
+    let '(s2, rs) := exec_s eval truthy poll recatch veq enum live bind fuel s0 [] s in
     s1 = s2 /\ rel val [] ro rs /\ L1 = [].
 Proof. exact control_flow_refines. Qed.
 Print Assumptions C01_control_flow_refines_generic.
@@ -96,3 +97,11 @@ Example C01_guard_met_loops_switch : wf (SBlock w_wf2) = true /\
   (let '(s, L, o) := run_o 400 [10%nat; 11%nat] 0 w_wf2 in (out s, L, o)) =
     ([VNum 100; VNum 200; VNum 9; VNum 200; VNum 9; VNum 300], [], OReturned (VNum 3)).
 Proof. exact w_wf2_ok. Qed.
+
+(* non-vacuity of the for-in clauses: an instance of the generic theorem whose enumeration protocol yields names
+   (own names 1, 2; inherited 3, 4; 2 deleted before its turn; the body breaks at 3): both semantics bind 1 and 3 *)
+Example C01_guard_met_forin :
+  wf t_prog = true /\
+  exec_o t_eval t_truthy t_poll (fun v => v) Z.eqb t_enum t_live t_bind 20 [] [] t_prog = ([1; 3]%Z, [], ONorm OEmpty) /\
+  exec_s t_eval t_truthy t_poll (fun v => v) Z.eqb t_enum t_live t_bind 20 [] [] t_prog = ([1; 3]%Z, SDone CNormal).
+Proof. exact t_forin_runs. Qed.
